@@ -504,6 +504,11 @@ pub enum ErrorLayout {
     /// Legacy: length field zero, quotation padded/truncated to exactly 128 octets,
     /// extension appended.
     Legacy128(Vec<ExtObject>),
+    /// As `Compliant`, but the length attribute gives the un-padded quotation (rounded up to
+    /// a word) while the field itself is zero padded to 128 octets: seen from deployed
+    /// routers and explicitly handled by parsers ("trim the original datagram to the
+    /// RFC 4884 length"). Only used when the quotation is at most 128 octets.
+    CompliantShortLength(Vec<ExtObject>),
 }
 
 /// Build the ICMP (v4) error message body: type, code, checksum, (length), quotation, extension.
@@ -529,6 +534,14 @@ pub fn build_icmpv4_error(icmp_type: u8, code: u8, quoted: &[u8], layout: &Error
         }
         ErrorLayout::Legacy128(objs) => {
             let mut q = quoted.to_vec();
+            q.resize(128, 0);
+            m.extend_from_slice(&q);
+            m.extend_from_slice(&build_extension(objs));
+        }
+        ErrorLayout::CompliantShortLength(objs) => {
+            let mut q = quoted.to_vec();
+            q.truncate(128);
+            m[5] = q.len().div_ceil(4) as u8;
             q.resize(128, 0);
             m.extend_from_slice(&q);
             m.extend_from_slice(&build_extension(objs));
@@ -569,6 +582,14 @@ pub fn build_icmpv6_error(
         }
         ErrorLayout::Legacy128(objs) => {
             let mut q = quoted.to_vec();
+            q.resize(128, 0);
+            m.extend_from_slice(&q);
+            m.extend_from_slice(&build_extension(objs));
+        }
+        ErrorLayout::CompliantShortLength(objs) => {
+            let mut q = quoted.to_vec();
+            q.truncate(128);
+            m[4] = q.len().div_ceil(8) as u8;
             q.resize(128, 0);
             m.extend_from_slice(&q);
             m.extend_from_slice(&build_extension(objs));
